@@ -5,6 +5,8 @@ use crate::driver::Driver;
 use crate::gen::{Gen, Profile, Weights};
 use crate::model::{LossMode, Violation};
 use crate::ringh::RingH;
+use crate::ringn::RingN;
+use crate::segment::{to_ring_n, SegStyle};
 use crate::rng::Rng;
 use crate::scenario::{Knobs, Policy, Scenario};
 use serde_json::{json, Value};
@@ -50,6 +52,28 @@ pub fn execute_h(sc: &Scenario, loss: LossMode, slack: u64, keep_log: bool) -> (
     (viols, out)
 }
 
+pub fn execute_n(sc: &Scenario, loss: LossMode, slack: u64, keep_log: bool) -> (Vec<Violation>, Outcome) {
+    let mut ring = RingN::new(&sc.knobs);
+    let mut out = Outcome::default();
+    let viols;
+    {
+        let mut d = Driver::new(&mut ring, sc.knobs.item_limit, sc.knobs.timeout_secs, loss).with_slack(slack);
+        d.keep_log = keep_log;
+        d.run(sc);
+        viols = std::mem::take(&mut d.violations);
+        out.fp = d.fingerprint();
+        out.nontrivial = d.model.state_dependent > 0 && (d.stats.cuts_inside_frame > 0 || d.stats.fins + d.stats.rsts > 0);
+        out.stats = d.stats.clone();
+        for (k, st, p) in d.model.cells.iter() {
+            out.cells.insert(format!("{:?}/{:#06x}/{}", k, st, p));
+        }
+        out.log = std::mem::take(&mut d.log);
+    }
+    out.count("quiesce_spins", ring.quiesce_spins);
+    out.count("max_quiesce_spins", ring.max_spins);
+    (viols, out)
+}
+
 impl Check for ModelCheck {
     fn id(&self) -> &'static str {
         self.id
@@ -69,8 +93,32 @@ impl Check for ModelCheck {
             knobs.item_limit = 1024 * 1024;
         }
         let mut wrng = Rng::sub(run_seed, "workload");
+        let ring_n = Rng::sub(run_seed, "ring").chance(1, 4);
+        let mut profile = profile;
+        if ring_n {
+            // the whole server per run costs more: shorter histories, real 1 Hz clock
+            profile.cmds = profile.cmds.min(60);
+            profile.whole_seconds = false;
+            profile.far_advance = profile.far_advance.min(200);
+            profile.advance_cap = 300;
+            profile.ttls.retain(|t| *t <= 120);
+            if profile.ttls.is_empty() {
+                profile.ttls = vec![1, 2, 3, 5];
+            }
+            profile.batch_pct = 30;
+            knobs.timeout_secs = *krng.pick(&[1u32, 5, 60, 120]);
+            knobs.conn_limit = 64;
+        }
         let mut g = Gen::new(&mut wrng, profile);
         let sc = g.scenario(knobs);
+        if ring_n {
+            let mut srng = Rng::sub(run_seed, "segmentation");
+            let sc = to_ring_n(&sc, &mut srng, SegStyle::Mixed, 10);
+            return Case {
+                kind: "N".into(),
+                data: json!({"scenario": sc.to_json()}),
+            };
+        }
         Case {
             kind: "H".into(),
             data: json!({"scenario": sc.to_json()}),
@@ -86,7 +134,12 @@ impl Check for ModelCheck {
         };
         let keep_log = case.data.get("log").is_some();
         let slack = if self.id == "C05" { 0 } else { 1 };
-        let (viols, mut out) = execute_h(&sc, LossMode::Strict, slack, keep_log);
+        let (viols, mut out) = if case.kind == "N" {
+            execute_n(&sc, LossMode::Strict, slack, keep_log)
+        } else {
+            execute_h(&sc, LossMode::Strict, slack, keep_log)
+        };
+        out.count(if case.kind == "N" { "ring_N_runs" } else { "ring_H_runs" }, 1);
         let claims = self.claims;
         // debugging / defect confirmation: claim exactly one signature, whichever property it belongs to
         match std::env::var("VERIF_CLAIM_SIG") {
